@@ -16,6 +16,7 @@ import PdfModel.Lemmas.TotalFont
 import PdfModel.Lemmas.TotalHandTower
 import PdfModel.Lemmas.TotalCrypt
 import PdfModel.Lemmas.TotalContentTyped
+import PdfModel.Lemmas.TotalScan
 import PdfModel.Generated.Schemas
 import PdfModel.Props.C02
 import PdfModel.Props.C05
@@ -333,11 +334,13 @@ theorem inline_image_ei_total {R : Type} (env : Env R) (henv : EnvOk env) (buf :
 -- 5. cross-reference sections
 
 /-- `read_xref_and_trailer_at`, BOTH section formats (the one model of them: `Model/XrefTable` with its stream
-    branch `Model/XrefStreamRead`, over the row reader `Model/XrefStream`), strict and tolerant: `Ok` or `Err` for every
-    buffer and cursor; the entry loop of a table runs at most `len / 3` rounds whatever count the subsection
-    header claims (up to 2^32 − 1); the sections hold `Free` / `Raw` / `Stream` entries only, which is what the merge
-    needs. The typed reader of the stream dictionary (`Stream::<XRefInfo>`, see `derived_reader_total`) and the data
-    of the stream (`Resolve::stream_data` + filters) are parameters that return `Ok` or `Err`. -/
+    branch `Model/XrefStreamRead`, over the row reader `Model/XrefStream`), strict and tolerant. What the statement
+    says, no more: the outcome is never `panic` and never `oof` for every buffer and cursor, and the sections of an
+    `Ok` satisfy `Xref.pairsOK` (`Free` / `Raw` / `Stream` entries only, firsts and lengths in range), which is what
+    the merge needs (`merge_total`). The bound on the entry loop of a table (at most `len / 3` rounds whatever count
+    the header claims) is NOT part of this statement: it is `xref_table_total` and item 4 of `read_core_linear`. The
+    typed reader of the stream dictionary (`Stream::<XRefInfo>`) and the data of the stream (`Resolve::stream_data` +
+    filters) are parameters assumed to return `Ok` or `Err` (`htyped`, `hdata`). -/
 theorem read_xref_at_total {R : Type} (env : Env R) (henv : EnvOk env) (typed : Dict R → Out XrefTable.XInfo)
     (htyped : ∀ d, Ret (typed d)) (sdata : Dict R → StreamInner → Out (List UInt8)) (hdata : ∀ d i, Ret (sdata d i))
     (allowErr : Bool) (buf : Buf) (hs : RealSize buf) (pos : Nat) (h : pos ≤ buf.size) :
@@ -390,7 +393,9 @@ theorem xref_stream_sections_total (tolerant : Bool) (width : List Nat) (pairs :
     * loading the chain of cross-reference sections — `startxref`, every `/Prev`, each section merged into the
       table (C02's merge: total on what the section readers deliver) — returns with `len + 2` rounds of fuel;
     * resolving ANY object number against ANY table through direct or compressed storage returns with fuel
-      `2·(table length) + 3` (the guard `chain` is duplicate-free: pigeonhole), raw stream data and `scan` return;
+      `2·(table length) + 3` (the guard `chain` is duplicate-free: pigeonhole), raw stream data and `scan` return
+      (`scan`: the call, and every item *given that the items of the parameter `P.scanItems` return* — that is part of
+      `TotalOn`; the concrete item loop is `scan_loop_total` / `open_core_total_scan`);
     * member lookup in an object stream returns (C11), every filter chain returns whatever the third-party
       decompressors deliver (C05), a cross-reference stream's sections are read without overflow (C14);
     * typed loading under the recursion guard returns on every object graph, cyclic or not (C14);
@@ -450,7 +455,9 @@ theorem core_parsers_total {R : Type} (env : Env R) (typed : Dict R → Out Xref
 
 /-- **The composition on the concrete parsers, both section formats.** Opening ANY byte string (header, `startxref`,
     the `/Prev` walk over table and stream sections, merge) and resolving ANY object number through direct or
-    compressed storage returns `Ok` or `Err`. -/
+    compressed storage returns `Ok` or `Err`. The item loop of `Storage::scan` is a PARAMETER here (`S`, with the
+    hypothesis `ParamsOk.scan` that its items return) and this statement says nothing about the scan;
+    `open_core_total_scan` instantiates `S` with the concrete loop of `Model/ScanLoop.lean` and proves that hypothesis. -/
 theorem open_core_total_concrete {R : Type} (env : Env R) (typed : Dict R → Out XrefTable.XInfo)
     (sdata : Dict R → StreamInner → Out (List UInt8)) (allowErr : Bool)
     (dec : Dict R → List UInt8 → Out (List UInt8)) (S : List UInt8 → List (Out (Offsets.Obj (Prim R))))
@@ -461,6 +468,46 @@ theorem open_core_total_concrete {R : Type} (env : Env R) (typed : Dict R → Ou
         (2 * t.length + 3) [] flags id).Returns := by
   have h := open_core_total _ buf (core_parsers_total env typed sdata allowErr dec S buf.length hn hp)
   exact ⟨h.2.2.1, h.2.2.2.2.1⟩
+
+/-- **The recovery scan on the concrete lexer / parser** (`Model/ScanLoop.lean`, C17: the item loop of `Storage::scan`
+    after the D26 repair). For EVERY slice: one call of the iterator's closure ends the iteration or yields an item
+    (object, trailer, error) at a cursor strictly further inside the slice — it has no `Err` outcome of its own, never
+    panics, and its `startxref … continue` recursion never uses up the fuel `len + 2`; so the iterator yields at most one
+    item per byte and ends within `len + 1` calls (`ScanLoop.items` with fuel `len + 2` from cursor 0 is `Ok`). -/
+theorem scan_loop_total {R : Type} (env : Env R) (henv : EnvOk env) (buf : Buf) (hs : RealSize buf) :
+    (∀ (fuel pos : Nat), pos ≤ buf.size → buf.size - pos < fuel →
+      (∃ p, ScanLoop.step env buf (defaultFuel buf) fuel pos = .ok (none, p)) ∨
+      ∃ it q, ScanLoop.step env buf (defaultFuel buf) fuel pos = .ok (some it, q) ∧ pos < q ∧ q ≤ buf.size) ∧
+    ∃ l, ScanLoop.items env buf (defaultFuel buf) (buf.size + 2) 0 = .ok l ∧ l.length ≤ buf.size := by
+  refine ⟨ScanLoop.step_spec env henv buf hs, ?_⟩
+  obtain ⟨l, hl, hn⟩ := ScanLoop.items_spec env henv buf hs (buf.size + 2) 0 (Nat.zero_le _) (by omega)
+  exact ⟨l, hl, by simpa using hn⟩
+
+/-- **The composition with the scan loop made concrete.** `open_core_total_concrete` takes the item loop of
+    `Storage::scan` as a parameter `S` and *assumes* that its items return (`ParamsOk.scan`). Here `S` is
+    `ScanLoop.scanItemsOf env`: the loop of `Model/ScanLoop.lean` on the concrete lexer / parser, where a `panic` or
+    `oof` of the loop would be an item that does not return — and nothing is assumed about it: `scan_loop_total`
+    discharges the hypothesis. Opening any byte string, resolving any object number AND the recovery scan (the call
+    and every item it yields) return. Still parameters, assumed to return `Ok` or `Err`: the typed reader of a
+    cross-reference stream dictionary, stream data, the filter chain of an object stream (`typed`, `sdata`, `dec`). -/
+theorem open_core_total_scan {R : Type} (env : Env R) (typed : Dict R → Out XrefTable.XInfo)
+    (sdata : Dict R → StreamInner → Out (List UInt8)) (allowErr : Bool) (dec : Dict R → List UInt8 → Out (List UInt8))
+    (henv : EnvOk env) (htyped : ∀ d, Ret (typed d)) (hsdata : ∀ d i, Ret (sdata d i))
+    (hdec : ∀ d raw, Ret (dec d raw) ∧ ∀ out, dec d raw = .ok out → out.length ≤ Offsets.isizeMax)
+    (buf : List UInt8) (hn : buf.length ≤ Offsets.isizeMax) :
+    let P := Offsets.coreParsers env typed sdata allowErr dec (ScanLoop.scanItemsOf env) buf.length
+    (Offsets.openFile P (buf.length + 2) buf).Returns ∧
+    (∀ (start : Nat) (t : Xref.Table) (flags : Offsets.Flags) (id : Nat),
+      (Offsets.resolveRef P buf start t (2 * t.length + 3) [] flags id).Returns) ∧
+    (∀ start, (Offsets.scan P buf start).Returns ∧
+      ∀ items, Offsets.scan P buf start = .ok items → ∀ it ∈ items, it.Returns) ∧
+    (∀ sl : List UInt8, (ScanLoop.scanItemsOf env sl).length ≤ sl.length) := by
+  intro P
+  have hp := ScanLoop.paramsOk_scan env typed sdata dec henv htyped hsdata hdec
+  have hT := core_parsers_total env typed sdata allowErr dec (ScanLoop.scanItemsOf env) buf.length hn hp
+  have h := open_core_total_concrete env typed sdata allowErr dec (ScanLoop.scanItemsOf env) hp buf hn
+  exact ⟨h.1, h.2, fun start => Offsets.scan_returns P buf hT start,
+    fun sl => (ScanLoop.scanItemsOf_spec env henv sl).2⟩
 
 /-- **… and on a well-formed chain it is the real `/Prev` walk** (`Props/C02.walk_visits_chain`, here for the concrete
     parsers): totality says the walk always comes back; on a chain `newest :: older` of sections that the concrete
@@ -620,14 +667,22 @@ theorem tree_node_total (env : Derive.Env) (he : Derive.EnvOk env) (rdT : Derive
     Derive.Clean (Derive.readNumTree rdT env p) ∧ Derive.Clean (Derive.readNameTree rdT env p) :=
   ⟨Derive.readNumTree_clean_plain he rdT h p hp, Derive.readNameTree_clean_plain he rdT h p hp⟩
 
-/-- **Name / number tree walks and the page lookup** (`Model/TypedLoad`, C14): total on every graph — cyclic, shared,
-    dangling — and bounded: no node entered twice, at most `B` gets for kid numbers below `B`. -/
+/-- **Name / number tree walks and the page lookup** (`Model/TypedLoad`, C14; corollaries of `C14.walk_total`,
+    `C14.walk_work_linear`, `C14.page_total`). Three conjuncts: (1) a tree walk returns on every graph — cyclic, shared,
+    dangling (the model recurses on the depth budget and has no fuel: "never `oof`" holds by construction there, the
+    content is "never `panic`" and (2)); (2) the bound the name promises, for tree walks only: if every kid number is
+    below `B`, a walk makes at most `B` gets and enters no node twice, whether it ends with a value or an error; (3) the
+    page lookup returns for every table, `/Count` and `/Kids` — totality only, no bound on its work is stated here. -/
 theorem tree_walks_bounded :
     (∀ (g : List TypedLoad.TNode) (root : TypedLoad.TNode),
       (TypedLoad.walkTree g root).out ≠ .panic ∧ (TypedLoad.walkTree g root).out ≠ .oof) ∧
+    (∀ (g : List TypedLoad.TNode) (root : TypedLoad.TNode) (B : Nat),
+      (∀ node ∈ g, ∀ kid ∈ TypedLoad.kidsOf node, kid < B) → (∀ kid ∈ TypedLoad.kidsOf root, kid < B) →
+      (TypedLoad.walkTree g root).st.gets ≤ B ∧ (TypedLoad.walkTree g root).st.visited.Nodup) ∧
     (∀ (g : List TypedLoad.PNode) (kids : List Nat) (n : Nat),
       (TypedLoad.page g true kids n).out ≠ .panic ∧ (TypedLoad.page g true kids n).out ≠ .oof) :=
-  ⟨fun g root => C14.walk_total g root, fun g kids n => C14.page_total g kids n⟩
+  ⟨fun g root => C14.walk_total g root, fun g root B hg hr => C14.walk_work_linear g root B hg hr,
+   fun g kids n => C14.page_total g kids n⟩
 
 /-- **The readers of stream objects** (`CidToGidMap`, `Pattern`, `XObject` dispatch, `AppearanceStreamEntry`; C15's
     models on `TPrim` / `APrim`): every input. `unfiltered`: a stream handed to `unitStreamData` has a direct `/Length`
@@ -758,6 +813,40 @@ theorem content_typed_total {R : Type} (ro : Content.RealOps R) (env : Env R) (h
     (o : ContentBytes.Oracle) (ho : ContentBytes.ImgOk o) (allow : Bool) (data : List UInt8)
     (hs : RealSize data.toArray) : (ContentBytes.parseBytes ro env o allow data).Returns :=
   ContentBytes.parseBytes_total ro env henv o ho allow data hs
+
+/-- the inline-image reader of `Model/ContentLoop` (`inline_image`'s position arithmetic, `inline_image_total`) as the
+    `inlineImage` field of C08's oracle: the image is identified by where its data starts -/
+def imgReader {R : Type} (env : Env R) (o : Oracle) (buf : Buf) (pos : Nat) : Out (Option Nat × Nat) :=
+  if buf.size ≤ 9223372036854775807 then          -- `RealSize`: no Rust slice is longer than `isize::MAX`
+    match inlineImage env buf o pos with
+    | .ok ((true, p), some s) => .ok (some s.1, p)
+    | .ok ((_, p), _) => .ok (none, p)
+    | .err => .err
+    | .panic => .panic
+    | .oof => .oof
+  else .err
+
+/-- **`ImgOk` is what `inline_image_total` proves**: the hypothesis of `content_typed_total` about the inline-image reader
+    holds for the model of `inline_image` with ANY classification oracle, so for that reader `content_typed_total` has no
+    assumption left about images. (`isEof`, the error-kind oracle, stays arbitrary.) -/
+theorem inline_image_img_ok {R : Type} (env : Env R) (henv : EnvOk env) (o : Oracle) (isEof : Buf → Nat → Bool) :
+    ContentBytes.ImgOk { isEof := isEof, inlineImage := imgReader env o } := by
+  intro buf pos h
+  show imgReader env o buf pos = .err ∨ ∃ img q, imgReader env o buf pos = .ok (img, q) ∧ pos ≤ q ∧ q ≤ buf.size
+  unfold imgReader
+  split
+  · rename_i hsz
+    obtain ⟨b, p, d, hp, h1, h2, _⟩ := inline_image_total env henv buf hsz o pos h
+    right
+    rw [hp]
+    cases b <;> cases d <;> exact ⟨_, p, rfl, h1, h2⟩
+  · left; rfl
+
+/-- `content_typed_total` with the inline-image reader made concrete: no hypothesis about images is left -/
+theorem content_typed_total_concrete {R : Type} (ro : Content.RealOps R) (env : Env R) (henv : EnvOk env) (o : Oracle)
+    (isEof : Buf → Nat → Bool) (allow : Bool) (data : List UInt8) (hs : RealSize data.toArray) :
+    (ContentBytes.parseBytes ro env { isEof := isEof, inlineImage := imgReader env o } allow data).Returns :=
+  content_typed_total ro env henv _ (inline_image_img_ok env henv o isEof) allow data hs
 
 /-- **Functions** (`Model/Numeric`, C14): the PostScript calculator body parser and the interpreter's stack
     arithmetic answer on every token list / every operator list and input. Sampled (type 0) and stitching functions
@@ -937,6 +1026,10 @@ def xrefStmSample : Buf :=
 example : (match XrefTable.readXrefAt textEnv (fun _ => .ok ⟨[1, 1, 1], [0, 2]⟩) (fun _ _ => .ok [0, 0, 255, 1, 16, 0]) false
       xrefStmSample 0 with
     | .ok (secs, _) => secs | _ => []) = [⟨0, [.free 0 255, .raw 16 0]⟩] := by decide +kernel
+
+/-- the recovery scan on `1 0 obj 5 endobj` + junk: one object, then an error item; every item returns -/
+example : (ScanLoop.scanItemsOf textEnv [49, 32, 48, 32, 111, 98, 106, 32, 53, 32, 101, 110, 100, 111, 98, 106, 32, 63]).map Out.tag
+    = ["ok", "err"] := by decide +kernel
 
 end C01
 
